@@ -57,8 +57,8 @@ theorem decode_accepts_wf (p : Wire.Packet) (hwf : Wire.WF p) (rest : Bytes) :
 /-! ### Non-vacuity: the decoders do succeed and do fail. -/
 
 /-- a well-formed CONNECT with will, user name and (empty) password -/
-example : Wire.WF (.connect { level := 4, clean := true, keepAlive := 60, clientId := [0x63],
-    will := some ⟨[0x77], [0x6d], 1, true⟩, username := some [0x75], password := some [] }) := by decide
+example : Wire.WF (.connect ⟨4, true, 60, [0x63], some ⟨[0x77], [0x6d], 1, true⟩, some [0x75], some []⟩) := by
+  decide
 
 /-- PUBLISH QoS 1, topic "a/b", id 7, payload "hi", followed by two bytes of the next packet -/
 example :
